@@ -21,7 +21,8 @@ The invariant's counting predicates on threads: `atG2` / `atT2` (holder of the t
 its call), `preT1` (will still increment `endCount`), `mayErr` (will still send `Error`), `liveR` (has not incremented
 `endCount` and still has work to do before), `inData` (inside `sink(Data)`); `pend` counts data not yet passed on.
 -/
-namespace Cb.Merge
+namespace Cb.MergePar
+open Cb Cb.Merge
 open List
 
 /-- script of member `i`: greet, then data, then at most one terminal (`fails = false`: only `Terminate` allowed) -/
@@ -806,14 +807,14 @@ theorem merge_par_data_after_error :
   obtain ⟨s, h1, h2⟩ := h
   exact ⟨lateData, lateData_members, rfl, s, runSched_reach _ _ _ _ h1, h2⟩
 
-end Cb.Merge
+end Cb.MergePar
 
-#print axioms Cb.Merge.merge_par_safe
-#print axioms Cb.Merge.merge_par_safe_one
-#print axioms Cb.Merge.merge_par_safe_nofail
-#print axioms Cb.Merge.merge_par_order
-#print axioms Cb.Merge.merge_par_data
-#print axioms Cb.Merge.merge_par_data_done
-#print axioms Cb.Merge.merge_par_two_errors
-#print axioms Cb.Merge.merge_par_data_before_greet
-#print axioms Cb.Merge.merge_par_data_after_error
+#print axioms Cb.MergePar.merge_par_safe
+#print axioms Cb.MergePar.merge_par_safe_one
+#print axioms Cb.MergePar.merge_par_safe_nofail
+#print axioms Cb.MergePar.merge_par_order
+#print axioms Cb.MergePar.merge_par_data
+#print axioms Cb.MergePar.merge_par_data_done
+#print axioms Cb.MergePar.merge_par_two_errors
+#print axioms Cb.MergePar.merge_par_data_before_greet
+#print axioms Cb.MergePar.merge_par_data_after_error
